@@ -45,8 +45,11 @@ def work(args):
     viol, n_eval, distinct, samples = [], 0, 0, []
     nontrivial = 0
 
+    percl = {}
+
     def bad(clause, sig, det):
-        if len(viol) < 500:
+        percl[clause] = percl.get(clause, 0) + 1      # cap per clause: informational mismatches must not crowd out violations
+        if percl[clause] <= 120:
             viol.append({"clause": clause, "signature": sig, "detail": det})
 
     for li, line in enumerate(lines):
@@ -118,11 +121,11 @@ def work(args):
                     if one_d and c["dist"] != [[-1, -1]]:
                         exp = sorted(d * scale for _, d in c["dist"])
                         if len(exp) != len(dists) or any(abs(a - b) > 4 * math.ulp(max(abs(off) + MaxPos * scale, b)) for a, b in zip(dists, exp)):
-                            bad("C15_Distances", sig, {"got": dists, "expected": exp})
+                            bad("Info_NBCDistances", sig, {"got": dists, "expected": exp})
                     if not one_d:
                         exp = sorted(math.sqrt(d2) * scale for _, d2 in c["dist"])
                         if len(exp) != len(dists) or any(abs(a - b) > 1e-9 * max(b, scale) + 8 * math.ulp(abs(off) + 4 * scale) for a, b in zip(dists, exp)):
-                            bad("C15_Distances", sig, {"got": dists, "expected": exp})
+                            bad("Info_NBCDistances", sig, {"got": dists, "expected": exp})
                     if len(samples) < 4 and n >= 4 and len(got) >= 2 and pi == 0 and not maximize:
                         samples.append({"row": {k: v for k, v in c.items() if k != "ok"}, "acceptable": c["ok"][:3], "embed": ename, "got": got})
         # metamorphic: when the definition is deterministic (one acceptable result) every image must agree
